@@ -9,7 +9,8 @@ import pathlib
 
 from . import terms as T
 
-CARRIERS = ("str", "bytes", "bytearray", "memoryview-ro", "memoryview-rw")
+# memoryview-slice: a view of PART of a larger buffer (the bytes it gives are the payload, the buffer behind it is not)
+CARRIERS = ("str", "bytes", "bytearray", "memoryview-ro", "memoryview-rw", "memoryview-slice")
 
 
 def carry(text: str, carrier: str):
@@ -24,6 +25,8 @@ def carry(text: str, carrier: str):
         return memoryview(b)
     if carrier == "memoryview-rw":
         return memoryview(bytearray(b))
+    if carrier == "memoryview-slice":
+        return memoryview(b"\x02[" + b + b"]\x03")[2:-2]
     raise KeyError(carrier)
 
 
